@@ -57,8 +57,14 @@ package verifspec
 //@ property C07
 //@   param slice: slice, minCapacity: nat
 //@   requires minCapacity <= 2147483647 && slice.$capacity <= 2147483647
+//@   requires (slice.$elemtype.kind == 17 || slice.$elemtype.kind == 25) ==> isplain(slice.$array)      // $nativeArray: only numeric kinds live in typed arrays
 //@   returns slice
-//@   loop 1 invariant i >= length && forall(k, 0, length, newArray[k] == old(slice.$array[slice.$offset + k]))
+//@   loop 1 invariant i >= 0 && i <= length
+//@   loop 1 invariant forall(k, 0, i, isclone(newArray[k]) && cloneOf(newArray[k]) == old(slice.$array[slice.$offset + k]))
+//@   loop 1 invariant forall(k, i, length, newArray[k] == old(slice.$array[slice.$offset + k]))
+//@   loop 2 invariant i >= length
+//@   loop 2 invariant slice.$elemtype.kind != 17 && slice.$elemtype.kind != 25 ==> forall(k, 0, length, newArray[k] == old(slice.$array[slice.$offset + k]))
+//@   loop 2 invariant (slice.$elemtype.kind == 17 || slice.$elemtype.kind == 25) ==> forall(k, 0, length, isclone(newArray[k]) && cloneOf(newArray[k]) == old(slice.$array[slice.$offset + k]))
 //@   ensures !result.$nil && result.$length == slice.$length
 //@   ensures minCapacity <= slice.$capacity ==> sameobj(result.$array, slice.$array) && result.$offset == slice.$offset && result.$capacity == slice.$capacity
 //@   ensures minCapacity > slice.$capacity ==> freshobj(result.$array) && result.$offset == 0 && result.$capacity >= minCapacity && len(result.$array) >= result.$capacity
